@@ -311,7 +311,144 @@ def golden : List KMsg := [
   { apiKey := 18, isRequest := false, lo := 0, hi := 2, flexFrom := none, fields := [
       f "ErrorCode" .int16 0,
       f "ApiKeys" (arr [f "ApiKey" .int16 0, f "MinVersion" .int16 0, f "MaxVersion" .int16 0]) 0,
-      f "ThrottleTimeMs" .int32 1] }
+      f "ThrottleTimeMs" .int32 1] },
+  -- DescribeConfigs (32) v0–v3
+  { apiKey := 32, isRequest := true, lo := 0, hi := 3, flexFrom := none, fields := [
+      f "Resources" (arr [f "ResourceType" .int8 0, f "ResourceName" .string 0,
+        -- Kafka: nullable array of (non-null) strings; in the tree the element strings inherit `nullable` like Metadata's Topics
+        fu "ConfigurationKeys" (.array .string) 0]) 0,
+      f "IncludeSynonyms" .bool 1, f "IncludeDocumentation" .bool 3] },
+  { apiKey := 32, isRequest := false, lo := 0, hi := 3, flexFrom := none, fields := [
+      f "ThrottleTimeMs" .int32 0,
+      f "Results" (arr [f "ErrorCode" .int16 0, fn "ErrorMessage" .string 0 0, f "ResourceType" .int8 0, f "ResourceName" .string 0,
+        f "Configs" (arr [f "Name" .string 0, fn "Value" .string 0 0, f "ReadOnly" .bool 0, fr "IsDefault" .bool 0 0,
+          f "ConfigSource" .int8 1, f "IsSensitive" .bool 0,
+          f "Synonyms" (arr [f "Name" .string 1, fn "Value" .string 1 1, f "Source" .int8 1]) 1,
+          f "ConfigType" .int8 3, fn "Documentation" .string 3 3]) 0]) 0] },
+  -- AlterConfigs (33) v0–v1
+  { apiKey := 33, isRequest := true, lo := 0, hi := 1, flexFrom := none, fields := [
+      f "Resources" (arr [f "ResourceType" .int8 0, f "ResourceName" .string 0,
+        f "Configs" (arr [f "Name" .string 0, fn "Value" .string 0 0]) 0]) 0,
+      f "ValidateOnly" .bool 0] },
+  { apiKey := 33, isRequest := false, lo := 0, hi := 1, flexFrom := none, fields := [
+      f "ThrottleTimeMs" .int32 0,
+      f "Responses" (arr [f "ErrorCode" .int16 0, fn "ErrorMessage" .string 0 0, f "ResourceType" .int8 0,
+        f "ResourceName" .string 0]) 0] },
+  -- CreatePartitions (37) v0–v1
+  { apiKey := 37, isRequest := true, lo := 0, hi := 1, flexFrom := none, fields := [
+      f "Topics" (arr [f "Name" .string 0, f "Count" .int32 0,
+        fn "Assignments" (arr [f "BrokerIds" (.array .int32) 0]) 0 0]) 0,
+      f "TimeoutMs" .int32 0, f "ValidateOnly" .bool 0] },
+  { apiKey := 37, isRequest := false, lo := 0, hi := 1, flexFrom := none, fields := [
+      f "ThrottleTimeMs" .int32 0,
+      f "Results" (arr [f "Name" .string 0, f "ErrorCode" .int16 0, fn "ErrorMessage" .string 0 0]) 0] },
+  -- DeleteGroups (42) v0–v2 (flexible from v2)
+  { apiKey := 42, isRequest := true, lo := 0, hi := 2, flexFrom := some 2, fields := [f "GroupsNames" (.array .string) 0] },
+  { apiKey := 42, isRequest := false, lo := 0, hi := 2, flexFrom := some 2, fields := [
+      f "ThrottleTimeMs" .int32 0, f "Results" (arr [f "GroupId" .string 0, f "ErrorCode" .int16 0]) 0] },
+  -- ElectLeaders (43) v0–v1
+  { apiKey := 43, isRequest := true, lo := 0, hi := 1, flexFrom := none, fields := [
+      f "ElectionType" .int8 1,
+      -- Kafka: nullableVersions 0+ (null = every partition); the tree never writes null — reference follows the tree (audit note)
+      fu "TopicPartitions" (arr [f "Topic" .string 0, f "Partitions" (.array .int32) 0]) 0,
+      f "TimeoutMs" .int32 0] },
+  { apiKey := 43, isRequest := false, lo := 0, hi := 1, flexFrom := none, fields := [
+      f "ThrottleTimeMs" .int32 0, f "ErrorCode" .int16 1,
+      f "ReplicaElectionResults" (arr [f "Topic" .string 0,
+        f "PartitionResult" (arr [f "PartitionId" .int32 0, f "ErrorCode" .int16 0, fn "ErrorMessage" .string 0 0]) 0]) 0] },
+  -- IncrementalAlterConfigs (44) v0
+  { apiKey := 44, isRequest := true, lo := 0, hi := 0, flexFrom := none, fields := [
+      f "Resources" (arr [f "ResourceType" .int8 0, f "ResourceName" .string 0,
+        f "Configs" (arr [f "Name" .string 0, f "ConfigOperation" .int8 0, fn "Value" .string 0 0]) 0]) 0,
+      f "ValidateOnly" .bool 0] },
+  { apiKey := 44, isRequest := false, lo := 0, hi := 0, flexFrom := none, fields := [
+      f "ThrottleTimeMs" .int32 0,
+      f "Responses" (arr [f "ErrorCode" .int16 0, fn "ErrorMessage" .string 0 0, f "ResourceType" .int8 0,
+        f "ResourceName" .string 0]) 0] },
+  -- OffsetDelete (47) v0
+  { apiKey := 47, isRequest := true, lo := 0, hi := 0, flexFrom := none, fields := [
+      f "GroupId" .string 0,
+      f "Topics" (arr [f "Name" .string 0, f "Partitions" (arr [f "PartitionIndex" .int32 0]) 0]) 0] },
+  { apiKey := 47, isRequest := false, lo := 0, hi := 0, flexFrom := none, fields := [
+      f "ErrorCode" .int16 0, f "ThrottleTimeMs" .int32 0,
+      f "Topics" (arr [f "Name" .string 0,
+        f "Partitions" (arr [f "PartitionIndex" .int32 0, f "ErrorCode" .int16 0]) 0]) 0] },
+  -- DescribeAcls (29) v0–v3 (flexible from v2)
+  { apiKey := 29, isRequest := true, lo := 0, hi := 3, flexFrom := some 2, fields := [
+      f "ResourceTypeFilter" .int8 0, fn "ResourceNameFilter" .string 0 0, f "PatternTypeFilter" .int8 1,
+      fn "PrincipalFilter" .string 0 0, fn "HostFilter" .string 0 0, f "Operation" .int8 0, f "PermissionType" .int8 0] },
+  { apiKey := 29, isRequest := false, lo := 0, hi := 3, flexFrom := some 2, fields := [
+      f "ThrottleTimeMs" .int32 0, f "ErrorCode" .int16 0, fn "ErrorMessage" .string 0 0,
+      f "Resources" (arr [f "ResourceType" .int8 0, f "ResourceName" .string 0, f "PatternType" .int8 1,
+        f "Acls" (arr [f "Principal" .string 0, f "Host" .string 0, f "Operation" .int8 0, f "PermissionType" .int8 0]) 0]) 0] },
+  -- CreateAcls (30) v0–v3 (flexible from v2)
+  { apiKey := 30, isRequest := true, lo := 0, hi := 3, flexFrom := some 2, fields := [
+      f "Creations" (arr [f "ResourceType" .int8 0, f "ResourceName" .string 0, f "ResourcePatternType" .int8 1,
+        f "Principal" .string 0, f "Host" .string 0, f "Operation" .int8 0, f "PermissionType" .int8 0]) 0] },
+  { apiKey := 30, isRequest := false, lo := 0, hi := 3, flexFrom := some 2, fields := [
+      f "ThrottleTimeMs" .int32 0, f "Results" (arr [f "ErrorCode" .int16 0, fn "ErrorMessage" .string 0 0]) 0] },
+  -- DeleteAcls (31) v0–v3 (flexible from v2)
+  { apiKey := 31, isRequest := true, lo := 0, hi := 3, flexFrom := some 2, fields := [
+      f "Filters" (arr [f "ResourceTypeFilter" .int8 0, fn "ResourceNameFilter" .string 0 0, f "PatternTypeFilter" .int8 1,
+        fn "PrincipalFilter" .string 0 0, fn "HostFilter" .string 0 0, f "Operation" .int8 0, f "PermissionType" .int8 0]) 0] },
+  { apiKey := 31, isRequest := false, lo := 0, hi := 3, flexFrom := some 2, fields := [
+      f "ThrottleTimeMs" .int32 0,
+      f "FilterResults" (arr [f "ErrorCode" .int16 0, fn "ErrorMessage" .string 0 0,
+        f "MatchingAcls" (arr [f "ErrorCode" .int16 0, fn "ErrorMessage" .string 0 0, f "ResourceType" .int8 0,
+          f "ResourceName" .string 0, f "PatternType" .int8 1, f "Principal" .string 0, f "Host" .string 0,
+          f "Operation" .int8 0, f "PermissionType" .int8 0]) 0]) 0] },
+  -- AlterPartitionReassignments (45) v0 (flexible)
+  { apiKey := 45, isRequest := true, lo := 0, hi := 0, flexFrom := some 0, fields := [
+      f "TimeoutMs" .int32 0,
+      f "Topics" (arr [f "Name" .string 0,
+        f "Partitions" (arr [f "PartitionIndex" .int32 0, fn "Replicas" (.array .int32) 0 0]) 0]) 0] },
+  { apiKey := 45, isRequest := false, lo := 0, hi := 0, flexFrom := some 0, fields := [
+      f "ThrottleTimeMs" .int32 0, f "ErrorCode" .int16 0, fn "ErrorMessage" .string 0 0,
+      f "Responses" (arr [f "Name" .string 0,
+        f "Partitions" (arr [f "PartitionIndex" .int32 0, f "ErrorCode" .int16 0, fn "ErrorMessage" .string 0 0]) 0]) 0] },
+  -- ListPartitionReassignments (46) v0 (flexible)
+  { apiKey := 46, isRequest := true, lo := 0, hi := 0, flexFrom := some 0, fields := [
+      f "TimeoutMs" .int32 0,
+      fn "Topics" (arr [f "Name" .string 0, f "PartitionIndexes" (.array .int32) 0]) 0 0] },
+  { apiKey := 46, isRequest := false, lo := 0, hi := 0, flexFrom := some 0, fields := [
+      f "ThrottleTimeMs" .int32 0, f "ErrorCode" .int16 0, fn "ErrorMessage" .string 0 0,
+      f "Topics" (arr [f "Name" .string 0,
+        f "Partitions" (arr [f "PartitionIndex" .int32 0, f "Replicas" (.array .int32) 0,
+          f "AddingReplicas" (.array .int32) 0, f "RemovingReplicas" (.array .int32) 0]) 0]) 0] },
+  -- DescribeClientQuotas (48) v0–v1 (flexible from v1)
+  { apiKey := 48, isRequest := true, lo := 0, hi := 1, flexFrom := some 1, fields := [
+      f "Components" (arr [f "EntityType" .string 0, f "MatchType" .int8 0, fn "Match" .string 0 0]) 0,
+      f "Strict" .bool 0] },
+  { apiKey := 48, isRequest := false, lo := 0, hi := 1, flexFrom := some 1, fields := [
+      f "ThrottleTimeMs" .int32 0, f "ErrorCode" .int16 0, fn "ErrorMessage" .string 0 0,
+      -- Kafka: nullableVersions 0+ (null when the request fails); the tree never writes null (audit note)
+      fu "Entries" (arr [f "Entity" (arr [f "EntityType" .string 0, fn "EntityName" .string 0 0]) 0,
+        f "Values" (arr [f "Key" .string 0, f "Value" .float64 0]) 0]) 0] },
+  -- AlterClientQuotas (49) v0–v1 (flexible from v1)
+  { apiKey := 49, isRequest := true, lo := 0, hi := 1, flexFrom := some 1, fields := [
+      f "Entries" (arr [f "Entity" (arr [f "EntityType" .string 0, fn "EntityName" .string 0 0]) 0,
+        f "Ops" (arr [f "Key" .string 0, f "Value" .float64 0, f "Remove" .bool 0]) 0]) 0,
+      f "ValidateOnly" .bool 0] },
+  { apiKey := 49, isRequest := false, lo := 0, hi := 1, flexFrom := some 1, fields := [
+      f "ThrottleTimeMs" .int32 0,
+      f "Entries" (arr [f "ErrorCode" .int16 0, fn "ErrorMessage" .string 0 0,
+        f "Entity" (arr [f "EntityType" .string 0, fn "EntityName" .string 0 0]) 0]) 0] },
+  -- DescribeUserScramCredentials (50) v0 (flexible)
+  { apiKey := 50, isRequest := true, lo := 0, hi := 0, flexFrom := some 0, fields := [
+      -- Kafka: nullableVersions 0+ (null = all users); the tree never writes null (audit note)
+      fu "Users" (arr [f "Name" .string 0]) 0] },
+  { apiKey := 50, isRequest := false, lo := 0, hi := 0, flexFrom := some 0, fields := [
+      f "ThrottleTimeMs" .int32 0, f "ErrorCode" .int16 0, fn "ErrorMessage" .string 0 0,
+      f "Results" (arr [f "User" .string 0, f "ErrorCode" .int16 0, fn "ErrorMessage" .string 0 0,
+        f "CredentialInfos" (arr [f "Mechanism" .int8 0, f "Iterations" .int32 0]) 0]) 0] },
+  -- AlterUserScramCredentials (51) v0 (flexible)
+  { apiKey := 51, isRequest := true, lo := 0, hi := 0, flexFrom := some 0, fields := [
+      f "Deletions" (arr [f "Name" .string 0, f "Mechanism" .int8 0]) 0,
+      f "Upsertions" (arr [f "Name" .string 0, f "Mechanism" .int8 0, f "Iterations" .int32 0, f "Salt" .bytes 0,
+        f "SaltedPassword" .bytes 0]) 0] },
+  { apiKey := 51, isRequest := false, lo := 0, hi := 0, flexFrom := some 0, fields := [
+      f "ThrottleTimeMs" .int32 0,
+      f "Results" (arr [f "User" .string 0, f "ErrorCode" .int16 0, fn "ErrorMessage" .string 0 0]) 0] }
 ]
 
 def auditNotes : List String := [
@@ -321,6 +458,10 @@ def auditNotes : List String := [
   "OffsetFetch request Topics: nullable from v2 in Kafka, tree marks it nullable from v0 — reference follows the tree",
   "JoinGroup response v7 ProtocolType/ProtocolName, SyncGroup v5 ProtocolType/ProtocolName: nullable in Kafka — reference follows the tree's flag",
   "request header client_id: NULLABLE_STRING in Kafka; the library always writes a non-null string in non-flexible versions (Kafka 0.10 compatibility) — accepted as canonical",
+  "DescribeConfigs request ConfigurationKeys: []string nullable in the tree, the element strings inherit the flag (an empty config name is written as a null string, which Kafka's schema does not allow) — reference follows the tree",
+  "DescribeClientQuotas response Entries, DescribeUserScramCredentials request Users: nullable 0+ in Kafka, never null in the tree — reference follows the tree",
+  "DescribeAcls request: Kafka's message is FLAT; the tree nests the seven filter fields in a struct `Filter ACLFilter` — same bytes in v0-v1, but in the flexible versions v2-v3 the nested struct brings its own (empty) tagged-field buffer: one extra 00 byte before the request's own tag buffer (finding C04-D30)",
+  "ElectLeaders request TopicPartitions: nullable 0+ in Kafka (null = all partitions), never null in the tree — reference follows the tree",
   "Go has no null string: the empty string stands for null in nullable fields (library convention, part of the reference)"
 ]
 
